@@ -50,6 +50,32 @@ def worker(jobs):
     return [run_many(j) for j in jobs]
 
 
+def nested_downloads(p, i):
+    """graft download directories that contain each other, and a module whose sources live inside the innermost
+    (generate.rs looks the source directory up among the download directories: exact, else the first that contains it)"""
+    import copy, random
+    rng = random.Random(i)
+    p = copy.deepcopy(p)
+    root = p["files"]["laze-project.yml"][0]
+    depth = rng.randint(2, 4)
+    names, path = [], "nest"
+    mods = root.setdefault("modules", [])
+    for k in range(depth):
+        name = f"dln{k}"
+        mods.append({"name": name, "download": {"git": {"url": f"https://example.invalid/{name}.git", "commit": "0123abcd"}, "dldir": path},
+                     **({"depends": [names[-1]]} if names and rng.random() < 0.7 else {})})
+        names.append(name)
+        path += f"/in{k}"
+    order = list(names)
+    rng.shuffle(order)
+    inner = "build/dl/nest" + "".join(f"/in{k}" for k in range(depth - 1)) + "/src"
+    mods.append({"name": "glue", "srcdir": inner, "sources": ["g.c", "h.c"], "depends": order})
+    for kind, m, path_ in projcheck.yaml_modules(p):
+        if kind == "apps":
+            m["depends"] = list(m.get("depends") or []) + ["glue"]
+    return p
+
+
 def multikey(p):
     n = 0
     for kind, m, path in projcheck.yaml_modules(p):
@@ -73,9 +99,11 @@ def run(chk):
     # translator obligation: inventory of unordered containers ⊆ reviewed table (closed by `decide` in Theorems/C09.lean)
     chk.extra["translator_obligations"] = ["Laze.C09.containers_reviewed (Generated.containers ⊆ reviewed)"]
     # (1) correspondence with the model (document order semantics)
-    projcheck.campaign(chk, PROF, 150 if chk.tier == "quick" else 4000, OBS, None, lambda c, p, r, m: False, label="corr:")
+    projcheck.campaign(chk, PROF, 150 if chk.tier == "quick" else 4000, OBS, None, lambda c, p, r, m: False, label="corr:",
+                       extra_projects=[nested_downloads(projgen.gen_project(chk.seed + 950, i, PROF), i) for i in range(12 if chk.tier == "quick" else 200)])
     # (2) repeated runs
     jobs = [(projgen.gen_project(chk.seed + 900, i, PROF), k) for i in range(n)]
+    jobs += [(nested_downloads(projgen.gen_project(chk.seed + 950, i, PROF), i), 2 * k) for i in range(max(4, n // 8))]
     for p, runs in common.parallel_map(worker, jobs, nproc=8):
         chk.evaluations += len(runs)
         chk.count("repeated-runs", len(runs))
